@@ -14,7 +14,9 @@
 //! After every operation all tracked entries and both agreements are read back. One case =
 //! (state before, operation, answer, state after); the Coq model (KV.C50.Model) must reproduce
 //! answer and state (`agree`), the property predicate is evaluated on the observed states (`pcheck`).
-//! `c50 --probe` shows the two confirmed defects directly and exits 1 while they are present.
+//! `c50 --probe` replays the two defects this check found (a stub created in the protected uuid range and
+//! tagged built-in; password_import replacing a yielded primary credential) and exits 1 if either is
+//! back (both were repaired by /repo 7a11b7d, /verif/fixes/C50.patch).
 use kanidm_proto::internal::Filter as ProtoFilter;
 use kanidm_proto::scim_v1::*;
 use kanidmd_lib::entry::{Entry, EntryCommitted, EntryInit, EntryNew, EntrySealed};
@@ -541,7 +543,7 @@ fn gen_sent(rng: &mut Rng, ix: u64) -> SEnt {
     if has(4) && rng.chance(50, 100) {
         attrs.push((3, rng.below(4)));
     }
-    if has(4) && rng.chance(30, 100) || rng.chance(2, 100) {
+    if has(4) && rng.chance(22, 100) || rng.chance(2, 100) {
         attrs.push((6, rng.below(2)));
     }
     // attributes outside the requested classes / not synchronisable / unknown
@@ -603,10 +605,10 @@ fn gen_op(rng: &mut Rng, cur: &MState) -> Op {
                 75..=79 if !foreign.is_empty() => *rng.pick(&foreign),
                 80..=82 if !dead.is_empty() => *rng.pick(&dead),
                 0..=84 => rng.range(1, 8),
-                85..=87 => 10,
-                88..=89 => 11,
-                90..=91 => 12,
-                92..=97 => *rng.pick(&[20u64, 21]),
+                85..=88 => 10,
+                89..=91 => 11,
+                92..=93 => 12,
+                94..=97 => *rng.pick(&[20u64, 21]),
                 _ => 30,
             };
             ents.push(gen_sent(rng, ix));
@@ -674,7 +676,7 @@ fn gen_op(rng: &mut Rng, cur: &MState) -> Op {
         let a = rng.range(1, 2);
         let mut ys = vec![];
         for y in [0u64, 1, 2, 3, 5, 6, 4] {
-            if rng.chance(28, 100) {
+            if rng.chance(if y >= 4 { 14 } else { 28 }, 100) {
                 ys.push(y);
             }
         }
@@ -817,6 +819,23 @@ user edit of a synchronised entry"
             if let Err(e) = &r {
                 if err_name(e) == "EOther" {
                     sink.bump(&format!("other_{:?}", e).chars().take(60).collect::<String>());
+                }
+            }
+            if let Op::Sync(rq) = &o {
+                if rq.ik == IKind::Synch {
+                    let missing_reserved = rq.ents.iter().any(|se| {
+                        let u = pool_uuid(se.ix).as_u128();
+                        u < (1u128 << 48) && !cur.ents.iter().any(|(x, _)| *x == u)
+                    });
+                    let yl = cur.agrs.iter().find(|(u, _)| *u == agr_uuid(rq.agr).as_u128()).map(|(_, a)| a.yld.clone()).unwrap_or_default();
+                    let import_yielded = rq.ents.iter().any(|se| se.attrs.iter().any(|(a, _)| *a == 6)) && (yl.contains(&5) || yl.contains(&6));
+                    let rs = match &r { Ok(()) => "ok", Err(_) => "refused" };
+                    if missing_reserved {
+                        sink.bump(&format!("names_missing_protected_uuid_{rs}"));
+                    }
+                    if import_yielded {
+                        sink.bump(&format!("import_while_yielded_{rs}"));
+                    }
                 }
             }
             let coq = capp("CStep", &[c_state(&cur), c_op(&o), res.clone(), c_state(&next)]);
